@@ -8,7 +8,7 @@ import numpy as np
 PROPERTY = "C26"
 LEVEL = "model_checking"
 RULE = (
-    "exhaustive small inputs: ALL count vectors in {0,1,2,5}^m, m<=5 (quick) / 7 (thorough), offsets {all ones, alternating 1,2}, "
+    "exhaustive small inputs: ALL count vectors in {0,1,2,5}^m, m<=5 (quick) / 7 (thorough), offsets {all ones, alternating 1,2, all twos, alternating 3,2 (a single observation exactly AT min_offset=2: the minimum is inactive, ties n == min_offset are reached)}, "
     "fixed helper: epochs 1..m+2; Poisson helper: penalties {0,2,10} x min_counts {0,1,3} x min_offset {0,2}. oracle: fixed = the "
     "definition in the statement (boundaries 0..n non-decreasing, interior boundary k = last index with cumulative fraction <= k/epochs; "
     "where a cumulative fraction equals k/epochs to within 4 ulp either neighbouring index is accepted because np.linspace and k/epochs "
@@ -80,7 +80,7 @@ def run(case):
                     bad("fixed_changepoints_wrong", f"{counts} epochs={ep}: {e.tolist()} {why}")
                 if m >= 3:
                     keys.append(f"F|{counts}|{ep}")
-        for offs in ([1.0] * m, [1.0 + (i % 2) for i in range(m)]):
+        for offs in ([1.0] * m, [1.0 + (i % 2) for i in range(m)], [2.0] * m, [3.0 - (i % 2) for i in range(m)]):
             o = np.array(offs)
             # all segmentations once per (counts, offsets)
             segs = []
